@@ -50,6 +50,10 @@ type Spec struct {
 	// order. In that copy map iteration order is the simulator's choice, not
 	// the runtime's.
 	MapDescending bool `json:"map_descending,omitempty"`
+	// Warm (registry kinds): package-level registrations performed by the
+	// controller before the tasks start, so that the tasks re-register names
+	// that already exist (the registry does not grow while they overlap).
+	Warm []Op `json:"warm,omitempty"`
 }
 
 // StratSpec names the scheduling strategy of a generated run.
